@@ -19,9 +19,9 @@
                var   has *args          kw   has **kwargs
    C.reqs  : sequence of requests [m, segs, canon, keys, q, b]:
                m      HTTP method      segs   the non-empty path segments, decoded
-               canon  FALSE iff the request target was sent in a non-canonical
-                      spelling (empty segment, dot segment, needless %-escape):
-                      the server may then refuse or redirect instead of routing
+               canon  FALSE iff the request target was sent with an empty
+                      segment, a dot segment or any %-escape: the server may then
+                      refuse or redirect instead of routing (HTTP._on_read)
                q, b   parameters of the query string / of the urlencoded body,
                       sequences of [k, v]; keys = the distinct k, sorted
 
